@@ -138,7 +138,7 @@ fn direct(toks: &[&str]) -> String {
 
 /// The transcript is compared in full when small, else by length + digest.
 fn digest_wire(w: &[u8]) -> String {
-    if w.len() <= 4096 {
+    if w.len() <= 131072 {
         tok_of_bytes(w)
     } else {
         format!("{}:h{:016x}", w.len(), fnv64(w))
